@@ -619,13 +619,20 @@ def main(ck):
             return t is not None and (t["op"] == "repeat" or any(has_repeat(x) for x in t.get("sub") or []))
         stages_old = [(a, c) for a, b, c in mx["cur"] if b == 0]
         # Go's Simplify (not modelled) expands counted repetitions before anchoredOrValues looks at the tree
-        stages_new = [(a, c) for a, b, c in mx["rep"] if b == 0 and not (c == 25 and has_repeat(matrix["pats"][a]["ast"]))]
+        stages_all = [(a, c) for a, b, c in mx["rep"] if b == 0 and not (c == 25 and has_repeat(matrix["pats"][a]["ast"]))]
+        # patterns generated from the grammar: stage differences are counted, not reported (the model of the stages is exact for
+        # the curated list; for arbitrary trees Go's Simplify may restructure what the stage functions look at). Their ROWS are
+        # judged like all others.
+        stages_new = [(a, c) for a, c in stages_all if not matrix["pats"][a].get("gen")]
         nrows = sum(len(p["rows"]) for p in matrix["pats"])
         devi = [(a, b + 1) for a, p in enumerate(matrix["pats"]) for b, r in enumerate(p["rows"]) if r["u"] != r["i"]]
         ck.cov["regex_matrix"] = {"patterns": len(matrix["pats"]), "rows": nrows, "rows_index_differs_from_go_regexp": len(devi),
                                   "rows_model_before_f7a71a4_differs": len(cur_rows), "rows_model_today_differs": len(rep_rows),
                                   "stage_mismatches_today": ["%s:%d" % (matrix["pats"][a]["pat"], c) for a, c in stages_new][:20],
-                                  "generated_patterns": sum(1 for p in matrix["pats"] if p.get("gen"))}
+                                  "generated_patterns": sum(1 for p in matrix["pats"] if p.get("gen")),
+                                  "generated_rows": sum(len(p["rows"]) for p in matrix["pats"] if p.get("gen")),
+                                  "generated_stage_disagreements": ["%s:%d" % (matrix["pats"][a]["pat"], c) for a, c in stages_all
+                                                                    if matrix["pats"][a].get("gen")][:20]}
         for f in matrix["oracle"]:
             nviol += 1
             ck.violation({"kind": "direct-oracle", "what": f["what"], "failure": f})
